@@ -154,10 +154,11 @@ class UFn:
 class OpaqueFn:
     """a callee the contract declares opaque, used as a value (handed to map / partial): calling it logs like a direct call"""
 
-    __slots__ = ("name",)
+    __slots__ = ("name", "key")
 
-    def __init__(self, name):
+    def __init__(self, name, key=None):
         self.name = name
+        self.key = key or name
 
 
 class Const:
